@@ -91,6 +91,21 @@ func (li *loopInfo) succNode(n node, k int) (node, int) {
 	s := n.b.Succs[k]
 	if l := li.byHeader[s]; l != nil && l.body[n.b] && s.Dominates(n.b) {
 		// back edge
+		if l.spec != nil && l.spec.Peel > 0 && l.spec.Unroll == 0 {
+			var nc nodeCtx
+			iter := 0
+			for _, e := range n.ctx {
+				if e.hdr == s.Index {
+					iter = e.iter
+					break
+				}
+				nc = append(nc, e)
+			}
+			if iter < l.spec.Peel {
+				return node{s, append(nc, ctxEntry{s.Index, iter + 1})}, edgeForward
+			}
+			return node{s, append(nc, ctxEntry{s.Index, l.spec.Peel})}, edgeBackInv
+		}
 		if l.spec != nil && l.spec.Unroll > 0 {
 			var nc nodeCtx
 			iter := -1
@@ -110,7 +125,7 @@ func (li *loopInfo) succNode(n node, k int) (node, int) {
 		return node{s, li.restrict(n.ctx, s)}, edgeBackInv
 	}
 	nc := li.restrict(n.ctx, s)
-	if l := li.byHeader[s]; l != nil && l.spec != nil && l.spec.Unroll > 0 {
+	if l := li.byHeader[s]; l != nil && l.spec != nil && (l.spec.Unroll > 0 || l.spec.Peel > 0) {
 		found := false
 		for _, e := range nc {
 			if e.hdr == s.Index {
@@ -135,6 +150,23 @@ func (li *loopInfo) restrict(c nodeCtx, s *ssa.BasicBlock) nodeCtx {
 		}
 	}
 	return nc
+}
+
+// isCutNode: the header node at which the loop is cut (for peeled loops: only after the peeled iterations).
+func (li *loopInfo) isCutNode(n node) bool {
+	l := li.byHeader[n.b]
+	if l == nil || (l.spec != nil && l.spec.Unroll > 0) {
+		return false
+	}
+	if l.spec != nil && l.spec.Peel > 0 {
+		for _, e := range n.ctx {
+			if e.hdr == n.b.Index {
+				return e.iter == l.spec.Peel
+			}
+		}
+		return false
+	}
+	return true
 }
 
 func predIndex(from, to *ssa.BasicBlock, nth int) int {
